@@ -1,5 +1,6 @@
 """C10 -- networked cache with local L1 never serves data another node replaced."""
-import os, struct, itertools
+import os, sys, struct, itertools
+sys.path.insert(0, os.path.join(os.path.dirname(os.path.dirname(os.path.abspath(__file__))), 'lib'))   # when run as the harness wrapper
 import vlib
 from vlib import hexs, unhex
 
@@ -655,6 +656,8 @@ def canon_case(case, out):
 
 def oracle(case, out):
     c = case.split()
+    if out.startswith('SKIPPED-AFTER-HANG') or out == '<missing>':
+        return None          # the harness process hung or died on an earlier case of its chunk (that case carries the failure)
     if out.startswith('<crash') or out.startswith('EXCEPTION') or 'FAILED' in out or 'BAD-CASE' in out:
         return ('crash-or-io', 'harness could not complete the case: ' + out[:300])
     if c[0] == 'H':
@@ -685,6 +688,42 @@ def classify(case, out):
     fl = c[2]
     return 'hist:srv%s:l1=%s:%s' % (c[1], 'all' if '0' not in fl else 'none' if '1' not in fl else 'mixed',
                                     'len<=5' if n <= 5 else 'len<=15' if n <= 15 else 'len>15')
+
+
+def asan_pass(ctx, cases, volume):
+    """thorough tier / replay: the same harness built against the ASan+UBSan tree of the library, on a sample of the cases
+    (every kind); a sanitizer abort or a property failure in its answers is a failure with the case as replay"""
+    import time
+    t0 = time.time()
+    ok, err = vlib.build_repo(asan=True)
+    if not ok:
+        ctx.notes.append('ASan pass skipped: sanitizer build of the library failed: ' + err[-300:])
+        return
+    aexe, err = vlib.build_harness('C10_netcache', ['C10_netcache.cpp'], asan=True)
+    if not aexe:
+        ctx.notes.append('ASan pass skipped: sanitizer build of the harness failed: ' + err[-300:])
+        return
+    if len(cases) > volume:
+        step = len(cases) / float(volume)
+        sub = [cases[int(i * step)] for i in range(volume)]
+    else:
+        sub = list(cases)
+    env = {'ASAN_OPTIONS': 'detect_leaks=0', 'UBSAN_OPTIONS': 'print_stacktrace=1'}
+    import sys
+    wrapped = [sys.executable, os.path.abspath(__file__), '--wrap', aexe]
+    rc, out, err = vlib.run_lines_parallel(wrapped, sub, jobs=min(4, vlib.NCPU), env=env)
+    bad = 0
+    for c, o in zip(sub, out):
+        if o.startswith('<crash'):
+            bad += 1
+            ctx.fail('sanitizer-abort', 'the harness built with -fsanitize=address,undefined died on this case: ' + o[:1400], c)
+            continue
+        r = oracle(c, o)
+        if r:
+            ctx.fail(r[0], r[1] + '\n  (sanitizer build) case: %s\n  impl: %s' % (c[:400], o[:400]), c)
+    if len(out) != len(sub):
+        ctx.broke('sanitizer pass: harness produced %d lines for %d cases' % (len(out), len(sub)), err[-2000:])
+    ctx.coverage['asan_pass'] = {'cases': len(sub), 'aborted_cases': bad, 'wall_s': round(time.time() - t0, 1)}
 
 
 def run(ctx):
@@ -752,5 +791,49 @@ def run(ctx):
     ctx.coverage['exhaustive'] = False
     ctx.coverage['exhaustive_parts'] = ['all histories of length <= %d over the 8-operation alphabet that contain a fetch' % ctx.scale(5, 6)]
     mark('case_generation')
-    vlib.differential(ctx, cases, exe, mexe, oracle, nontrivial, classify, jobs=8, canon_case=canon_case)
+    import sys
+    wrapped = [sys.executable, os.path.abspath(__file__), '--wrap', exe]
+    vlib.differential(ctx, cases, wrapped, mexe, oracle, nontrivial, classify, jobs=min(8, vlib.NCPU), canon_case=canon_case)
     mark('differential_and_oracle')
+    if not ctx.quick() or (ctx.replay_cases is not None and os.path.exists(os.path.join(vlib.BUILD_ASAN, 'build.ninja'))):
+        asan_pass(ctx, cases, 20000)
+        mark('asan_pass')
+
+
+# ------------------------------------------------------------------------------------------------
+# harness wrapper (python3 checks/C10.py --wrap <exe>): feeds the case lines to the harness; when the process dies on a case
+# (segfault, sanitizer abort) that case is answered with a <crash ...> line and the remaining cases go to a fresh process, so
+# that the failing input is identified exactly and the other cases are still evaluated
+# ------------------------------------------------------------------------------------------------
+def _wrap(exe):
+    import sys, subprocess
+    lines = sys.stdin.buffer.read().split(b'\n')
+    if lines and lines[-1] == b'':
+        lines.pop()
+    i = 0
+    crashes = 0
+    w = sys.stdout.buffer
+    while i < len(lines):
+        p = subprocess.run([exe], input=b'\n'.join(lines[i:]) + b'\n', capture_output=True)
+        out = p.stdout.split(b'\n')
+        tail = out.pop() if out else b''          # text after the last newline: an unfinished line
+        out = out[:len(lines) - i]
+        for o in out:
+            w.write(o + b'\n')
+        i += len(out)
+        if i < len(lines):
+            crashes += 1
+            err = p.stderr.decode(errors='replace')[-1500:].replace('\n', ' | ')
+            w.write(('<crash rc=%s> %s\n' % (p.returncode, err)).encode())
+            i += 1
+            if crashes >= 20:                      # something is thoroughly wrong: do not restart for ever
+                while i < len(lines):
+                    w.write(b'<missing>\n')
+                    i += 1
+    w.flush()
+
+
+if __name__ == '__main__':
+    import sys
+    if len(sys.argv) == 3 and sys.argv[1] == '--wrap':
+        _wrap(sys.argv[2])
